@@ -393,3 +393,22 @@ def edge_datetime(text, zone):
         return utc.astimezone(zoneinfo.ZoneInfo(zone)).replace(tzinfo=None)
     except (OverflowError, ValueError):
         return None
+
+
+# ---------------------------------------------------------------------------------------------------------------------
+# reference civil calendar (proleptic Gregorian, years 1..9999): which date texts name a day that exists
+# ---------------------------------------------------------------------------------------------------------------------
+
+MONTH_MAX = (31, 29, 31, 30, 31, 30, 31, 31, 30, 31, 30, 31)      # the longest each month ever gets
+
+
+def is_leap(year):
+    return year % 4 == 0 and (year % 100 != 0 or year % 400 == 0)
+
+
+def days_in_month(year, month):
+    return 28 + is_leap(year) if month == 2 else MONTH_MAX[month - 1]
+
+
+def civil_exists(year, month, day):
+    return 1 <= year <= 9999 and 1 <= month <= 12 and 1 <= day <= days_in_month(year, month)
